@@ -77,6 +77,7 @@ TARGETS = [
     ("pams/market.py", "Market", "_cancel_order"),
     ("pams/market.py", "Market", "_execution"),
     ("pams/market.py", "Market", "_update_time"),
+    ("pams/market.py", "Market", "_fill_until"),
 ]
 
 
